@@ -1,129 +1,82 @@
-"""C13 - partial-wave (l, s) selection (one structural clause).
+"""C13 - the offered (l, s) couplings are exactly the triangle- and parity-allowed ones (finite-domain interpretation).
 
-Decides that tf_pwa.particle.GetA2BC_LS_list *is* the textbook enumeration:
-   s runs over |jb - jc| .. jb + jc in unit steps,
-   l runs over |ja - s| .. ja + s in unit steps (half-integer l skipped),
-   parity:   kept iff l = dl (mod 2) with dl = 0 when pa*pb*pc == 1 else 1, unless parity may be broken,
-   C parity: when requested, kept iff ca == (-1)^(l+s),
-   every accepted pair is appended exactly once, nothing else is appended.
-With these bounds and filters "exactly those allowed by the triangle rules and by parity,
-each listed once" holds for every spin-parity assignment by construction.  The rank of the
-LS -> helicity map, the per-decay restrictions (l_list / ls_list) and the configuration-level
-cut of chains without allowed couplings are NOT decided.
+GetA2BC_LS_list touches its arguments only through comparisons, parity arithmetic and integer steps; it is
+interpreted AS A WHOLE (with _spin_range evaluated as the generator it is) on a grid of spins, parities (including
+unknown ones), the parity-violation switch and the C-parity argument, and its result is compared - as an ordered
+list, so each coupling appears once - with the textbook enumeration
+
+    s = |jb-jc| .. jb+jc (unit steps),  l = |ja-s| .. ja+s (unit steps), l integer,
+    kept iff  (p_break or a parity unknown or (-1)^l == pa pb pc)  and  (ca is None or ca == (-1)^(l+s)).
+
+Robust to any rewriting of the function (loop bounds through temporaries, filter as if/else or conditional
+expression, any(...) instead of `or`, renamed locals).
+NOT decided: rank of the LS->helicity map, per-decay l_list / ls_list restrictions, removal of chains without
+allowed couplings.
 """
-import ast
+import itertools
 
 import sympy as sp
 
-from ..model import AnalysisError, norm_text, walk_local
-from ..sym import Translator, Unmodelled, equal
+from ..model import AnalysisError
+from ..sym import Raised, Translator, Unmodelled
 
 PAR = "tf_pwa/particle.py"
 
 
+def reference(ja, jb, jc, pa, pb, pc, p_break, ca):
+    out = []
+    unknown = pa is None or pb is None or pc is None
+    s = abs(jb - jc)
+    while s <= jb + jc:
+        l = abs(ja - s)
+        while l <= ja + s:
+            if l == int(l):
+                li = int(l)
+                ok = True
+                if ca is not None and sp.Integer(ca) != sp.Integer(-1) ** (li + s):
+                    ok = False
+                if ok and not (p_break or unknown) and (-1) ** li != pa * pb * pc:
+                    ok = False
+                if ok:
+                    out.append((li, s))
+            l += 1
+        s += 1
+    return out
+
+
 def run(repo, chk, tier):
-    chk.rule("S-range", "_spin_range(a, b) yields a, a+1, ... while <= b (unit steps, both ends included)")
-    chk.rule("S-bounds", "E6: s from |jb-jc| to jb+jc, l from |ja-s| to ja+s")
-    chk.rule("S-filter", "parity filter l % 2 == dl with dl = 0 if pa*pb*pc == 1 else 1 (skipped when parity may be broken or a parity is unknown); C-parity filter ca == (-1)**(l+s) when ca is given; each accepted (l, s) appended exactly once")
-    sr = repo.fn(PAR + "::_spin_range")
-    body = sr.node.body
-    ok = (
-        len(body) == 1 and isinstance(body[0], ast.While) and norm_text(body[0].test) == "a <= b"
-        and len(body[0].body) == 2 and norm_text(body[0].body[0]) == "yield a"
-        and norm_text(body[0].body[1]) in ("a = a + 1", "a += 1", "a = 1 + a") and not body[0].orelse
-    )
-    chk.instance("S-range", "_spin_range: while a <= b: yield a; a = a + 1 -> %s" % ok)
-    if not ok:
-        chk.violation("S-range", sr.key, "shape", "_spin_range no longer yields a, a+1, ..., <= b: `%s`" % norm_text(sr.node)[:160], file=PAR, line=sr.lineno)
+    chk.rule("S-enum", "GetA2BC_LS_list, interpreted as a whole on a grid of spins x parities (incl. unknown) x p_break x C-parity, returns the textbook list of (l, s): triangle rules in unit steps with both ends, l integer, parity and C-parity filters, each coupling once and in order")
     fn = repo.fn(PAR + "::GetA2BC_LS_list")
-    ja, jb, jc = sp.symbols("ja jb jc", nonnegative=True)
-    s_ = sp.Symbol("s", nonnegative=True)
-    tr = Translator(repo)
-    loops = [n for n in walk_local(fn.node) if isinstance(n, ast.For) and isinstance(n.iter, ast.Call) and norm_text(n.iter.func) == "_spin_range"]
-    if len(loops) != 2:
-        raise AnalysisError("GetA2BC_LS_list: expected two _spin_range loops, found %d" % len(loops))
-    outer, inner = (loops[0], loops[1]) if any(x is loops[1] for x in ast.walk(loops[0])) else (loops[1], loops[0])
-    # local definitions s_min / s_max
-    env = {"ja": ja, "jb": jb, "jc": jc, "s": s_}
-    for st in fn.node.body:
-        if isinstance(st, ast.Assign) and isinstance(st.targets[0], ast.Name) and st.targets[0].id in ("s_min", "s_max"):
-            env[st.targets[0].id] = tr.eval(st.value, env, fn.mod, 0)
-
-    def bound(loop, want_lo, want_hi, what):
-        try:
-            lo = tr.eval(loop.iter.args[0], env, fn.mod, 0)
-            hi = tr.eval(loop.iter.args[1], env, fn.mod, 0)
-        except Unmodelled as e:
-            raise AnalysisError("GetA2BC_LS_list: %s bounds not modelled: %s" % (what, e))
-        a, da = equal(sp.sympify(lo), want_lo)
-        b, db = equal(sp.sympify(hi), want_hi)
-        chk.instance("S-bounds", "%s runs from %s to %s (required %s .. %s): %s" % (what, lo, hi, want_lo, want_hi, bool(a and b)))
-        if not (a and b):
-            chk.violation("S-bounds", fn.key, "bounds:%s" % what, "%s runs from %s to %s; the triangle rule requires %s .. %s" % (what, lo, hi, want_lo, want_hi), file=PAR, line=loop.lineno)
-
-    if norm_text(outer.target) != "s" or norm_text(inner.target) != "l":
-        raise AnalysisError("GetA2BC_LS_list: loop variables are not (s, l)")
-    bound(outer, sp.Abs(jb - jc), jb + jc, "s")
-    bound(inner, sp.Abs(ja - s_), ja + s_, "l")
-    # filters: the body of the l loop is a branch-only fragment whose inputs are touched only through
-    # parity / equality tests; it is interpreted by the checker's evaluator over the finite domain
-    # l in 0..5 (+ one half-integer), s in 0..3, p_break, dl in {0,1}, ca in {None, +1, -1} and compared
-    # with the selection rule itself (robust against any rewriting of the tests / nesting)
-    dl_assign = [n for n in walk_local(fn.node) if isinstance(n, ast.Assign) and norm_text(n.targets[0]) == "dl"]
-    if not dl_assign:
-        raise AnalysisError("GetA2BC_LS_list: definition of dl not found")
-    hooks = {"builtin.isinstance": lambda tr_, args, kwargs, n: bool(getattr(args[0], "is_Integer", False)) or isinstance(args[0], int)}
-    n_cases = n_bad = 0
-    first_bad = None
-    for pa in (1, -1):
-        for pb in (1, -1):
-            for pc in (1, -1):
-                t2 = Translator(repo, hooks=hooks)
-                dlv = t2.eval(dl_assign[0].value, {"pa": sp.Integer(pa), "pb": sp.Integer(pb), "pc": sp.Integer(pc)}, fn.mod, 0)
-                want = 0 if pa * pb * pc == 1 else 1
-                n_cases += 1
-                if int(dlv) != want:
-                    n_bad += 1
-                    first_bad = first_bad or "dl(pa=%d,pb=%d,pc=%d) = %s, parity conservation pa = pb*pc*(-1)^l requires %d" % (pa, pb, pc, dlv, want)
-    for lv in [sp.Integer(k) for k in range(6)] + [sp.Rational(3, 2)]:
-        for sv in range(4):
-            for pbreak in (True, False):
-                for dlv in (0, 1):
-                    for ca in (None, 1, -1):
-                        env2 = {"l": lv, "s": sp.Integer(sv), "p_break": pbreak, "dl": sp.Integer(dlv), "ca": None if ca is None else sp.Integer(ca), "ret": []}
-                        t2 = Translator(repo, hooks=hooks)
-                        try:
-                            r = t2.exec_body(inner.body, env2, fn.mod, 0)
-                        except Unmodelled as e:
-                            raise AnalysisError("GetA2BC_LS_list: l-loop body not modelled: %s" % e)
-                        got = [(int(a_), int(b_)) for a_, b_ in env2["ret"]]
-                        if not lv.is_Integer:
-                            want = []
-                            ok_ = got == [] and r is not None and r[0] == "break"
-                        else:
-                            keep = (ca is None or ca == (-1) ** (int(lv) + sv)) and (pbreak or int(lv) % 2 == dlv)
-                            want = [(int(lv), sv)] if keep else []
-                            ok_ = got == want
-                        n_cases += 1
-                        if not ok_:
-                            n_bad += 1
-                            first_bad = first_bad or "l=%s s=%d p_break=%s dl=%d ca=%s: appended %s, selection rules require %s" % (lv, sv, pbreak, dlv, ca, got, want)
-    chk.instance("S-filter", "l-loop body interpreted on %d (l, s, p_break, dl, ca) / (pa, pb, pc) cases against the parity and C-parity rules: %d deviations" % (n_cases, n_bad))
-    if n_bad:
-        chk.violation("S-filter", fn.key, "filter", "the (l, s) filter deviates from the selection rules in %d of %d cases; first: %s" % (n_bad, n_cases, first_bad), file=PAR, line=inner.lineno)
-    unknown_ok = False
-    for n in walk_local(fn.node):
-        if isinstance(n, ast.If) and all(("%s is None" % v) in norm_text(n.test) for v in ("pa", "pb", "pc")) and any(norm_text(x) == "p_break = True" for x in n.body):
-            unknown_ok = True
-    chk.instance("S-filter", "a missing parity switches the parity filter off (p_break = True): %s" % unknown_ok)
-    if not unknown_ok:
-        chk.violation("S-filter", fn.key, "unknown-parity", "with an unknown parity the parity filter must be switched off", file=PAR, line=fn.lineno)
-    # the list is returned as built
-    r = [n for n in walk_local(fn.node) if isinstance(n, ast.Return)]
-    ok = len(r) == 1 and norm_text(r[0].value) == "ret"
-    chk.instance("S-filter", "returns the list as built: %s" % ok)
-    if not ok:
-        chk.violation("S-filter", fn.key, "return", "GetA2BC_LS_list no longer returns the enumerated list unchanged", file=PAR, line=fn.lineno)
+    if fn.params[:3] != ["ja", "jb", "jc"]:
+        raise AnalysisError("GetA2BC_LS_list parameters changed: %s" % fn.params)
+    half = sp.Rational(1, 2)
+    spins = [sp.Integer(0), half, sp.Integer(1), 3 * half] + ([sp.Integer(2)] if tier == "thorough" else [])
+    parities = list(itertools.product((1, -1), repeat=3)) + [(None, 1, 1), (1, None, -1), (-1, 1, None), (None, None, None)]
+    hooks = {"builtin.isinstance": lambda tr, args, kwargs, n: isinstance(args[0], int) or bool(getattr(args[0], "is_Integer", False)), "allow_raise": True}
+    tr = Translator(repo, hooks=hooks, max_depth=3)
+    n, bad = 0, []
+    for ja, jb, jc in itertools.product(spins, repeat=3):
+        for pa, pb, pc in parities:
+            for p_break in (False, True):
+                cas = (None, 1, -1) if (jb + jc).is_Integer else (None,)
+                for ca in cas:
+                    conv = lambda v: None if v is None else sp.Integer(v)
+                    try:
+                        got = tr.call_fn(fn, [ja, jb, jc], {"pa": conv(pa), "pb": conv(pb), "pc": conv(pc), "p_break": p_break, "ca": conv(ca)})
+                    except Raised as e:
+                        got = "raises %s" % e
+                    except Unmodelled as e:
+                        raise AnalysisError("GetA2BC_LS_list not interpretable at (%s,%s,%s; %s,%s,%s; %s; %s): %s" % (ja, jb, jc, pa, pb, pc, p_break, ca, e))
+                    want = reference(ja, jb, jc, pa, pb, pc, p_break, ca)
+                    n += 1
+                    g = [(int(a), sp.nsimplify(b)) for a, b in got] if isinstance(got, list) else got
+                    if g != want and len(bad) < 5:
+                        bad.append("ja=%s jb=%s jc=%s P=(%s,%s,%s) p_break=%s ca=%s: got %s, the selection rules give %s" % (ja, jb, jc, pa, pb, pc, p_break, ca, g, want))
+                    elif g != want:
+                        bad.append("")
+    chk.oblige("S-enum", "GetA2BC_LS_list interpreted at %d grid points (spins <= %s): %d deviations from the textbook enumeration" % (n, spins[-1], len(bad)), not bad)
+    if bad:
+        chk.violation("S-enum", fn.key, "enumeration", "%d of %d grid points deviate; first: %s" % (len(bad), n, bad[0]), file=PAR, line=fn.lineno)
+    if n < 1000:
+        raise AnalysisError("S-enum: only %d grid points" % n)
     chk.info("not decided: rank of the LS->helicity map, l_list/ls_list restrictions, removal of chains without allowed couplings")
-    chk.require_count("S-bounds", 2)
-    chk.require_count("S-filter", 3)
